@@ -106,7 +106,7 @@ theorem deep_flat {N : Tok → Prop} (t : Tok) (hc : t.children = none) (h : N t
   simp [descendants, descOpt]
 
 theorem deepU_linkN (ext : IExt) (lx : LExt) : LinkN ext lx (Deep (UTok ext lx)) :=
-  ⟨fun t hc h1 h2 => deep_flat t hc (utok_other ext lx t h1 h2),
+  ⟨fun t hc h => deep_flat t hc (utok_other ext lx t (by rcases h with h | h <;> rw [h] <;> decide) (by rcases h with h | h <;> rw [h] <;> decide)),
    fun t href hc hty ha hs => deep_flat t hc ⟨fun _ => ⟨href, ha, hs⟩, fun h => by rw [hty] at h; exact absurd h (by decide)⟩⟩
 
 /-! ### the image rule -/
@@ -166,11 +166,29 @@ theorem pushImage_tokens (s : IState) (a : List (String × AttrVal)) (ch : Optio
     · cases hx
     · simp only [List.mem_singleton] at hx; subst hx; exact ⟨rfl, rfl⟩
 
-theorem imageEmit_adds (ext : IExt) (lx : LExt) (parse : List Char → Except PyErr (List Tok))
-    (hparse : ∀ c ts, parse c = .ok ts → ∀ t ∈ ts, Deep (UTok ext lx) t)
+/-- what the image rule needs of a (deep) token predicate: a childless `text` token satisfies it, and so does an `image` token whose
+    first attribute is a `src` that arose legitimately and whose children — the nested parse of the description — all satisfy it -/
+structure ImageN (ext : IExt) (lx : LExt) (D : Tok → Prop) : Prop where
+  text : ∀ t, t.children = none → t.type = "text" → D t
+  image : ∀ t src cs, t.type = "image" → t.attrs.head? = some ("src", .s (String.ofList src)) → LinkSrc ext lx src →
+    (t.children = none ∨ t.children = some cs) → (∀ c ∈ cs, D c) → D t
+
+theorem deepU_imageN (ext : IExt) (lx : LExt) : ImageN ext lx (Deep (UTok ext lx)) := by
+  refine ⟨fun t hc hty => deep_flat t hc (utok_other ext lx t (by rw [hty]; decide) (by rw [hty]; decide)), ?_⟩
+  intro t src cs hty ha hsrc hch hcs
+  refine ⟨⟨ltok_other _ _ _ (by rw [hty]; decide), fun _ => ⟨src, ha, hsrc⟩⟩, ?_⟩
+  intro c hc
+  have hd : descendants t = descOpt t.children := by cases t; rfl
+  rw [hd] at hc
+  rcases hch with hch | hch
+  · rw [hch] at hc; simp [descOpt] at hc
+  · rw [hch] at hc; exact deep_list cs hcs c hc
+
+theorem imageEmit_adds (ext : IExt) (lx : LExt) {D : Tok → Prop} (hI : ImageN ext lx D) (parse : List Char → Except PyErr (List Tok))
+    (hparse : ∀ c ts, parse c = .ok ts → ∀ t ∈ ts, D t)
     (s : IState) (labelStart labelEnd : Nat) (href title label : List Char) (hsrc : LinkSrc ext lx href) (s3 : IState)
     (h : imageEmit lx parse s labelStart labelEnd href title label = .ok s3) :
-    ∃ new, s3.tokens = s.tokens ++ new ∧ ∀ t ∈ new, Deep (UTok ext lx) t := by
+    ∃ new, s3.tokens = s.tokens ++ new ∧ ∀ t ∈ new, D t := by
   unfold imageEmit at h
   simp only at h
   cases hp : parse ((s.src.take labelEnd).drop labelStart) with
@@ -189,24 +207,22 @@ theorem imageEmit_adds (ext : IExt) (lx : LExt) (parse : List Char → Except Py
     rw [List.mem_append] at hx
     rcases hx with hx | hx
     · obtain ⟨hxt, hxc⟩ := hfl x hx
-      exact deep_flat x hxc (utok_other _ _ _ (by rw [hxt]; decide) (by rw [hxt]; decide))
+      exact hI.text x hxc hxt
     · simp only [List.mem_singleton] at hx
       subst hx
-      refine ⟨⟨ltok_other _ _ _ (by rw [hty]; decide), fun _ => ⟨href, by rw [hat]; rfl, hsrc⟩⟩, ?_⟩
-      intro c hc
-      have hd : descendants x = descOpt x.children := by cases x; rfl
-      rw [hd, hch] at hc
-      split at hc
-      · simp [descOpt] at hc
-      · exact deep_list ts hts c hc
+      refine hI.image x href ts hty (by rw [hat]; rfl) hsrc ?_ hts
+      rw [hch]
+      split
+      · exact .inl rfl
+      · exact .inr rfl
 
-theorem iadds4_image (ext : IExt) (lx : LExt) (mn : Int) (inner : List IRule) (hok : ∀ r ∈ inner, IOK4 r)
-    (had : ∀ r ∈ inner, IAdds4 (Deep (UTok ext lx)) r) (parse : List Char → Except PyErr (List Tok))
-    (hparse : ∀ c ts, parse c = .ok ts → ∀ t ∈ ts, Deep (UTok ext lx) t) :
-    IAdds4 (Deep (UTok ext lx)) (ruleImage ext lx mn inner parse) := by
+theorem iadds4_image (ext : IExt) (lx : LExt) {D : Tok → Prop} (hI : ImageN ext lx D) (mn : Int) (inner : List IRule) (hok : ∀ r ∈ inner, IOK4 r)
+    (had : ∀ r ∈ inner, IAdds4 D r) (parse : List Char → Except PyErr (List Tok))
+    (hparse : ∀ c ts, parse c = .ok ts → ∀ t ∈ ts, D t) :
+    IAdds4 D (ruleImage ext lx mn inner parse) := by
   intro s silent m s' hc hk hr
   have hin : s.pos < s.src.length := by have := hc.1; have := hc.2; omega
-  have nil : ∀ x : IState, x.tokens = s.tokens → ∃ new, x.tokens = s.tokens ++ new ∧ (∀ t ∈ new, Deep (UTok ext lx) t) ∧ (silent = true → new = []) :=
+  have nil : ∀ x : IState, x.tokens = s.tokens → ∃ new, x.tokens = s.tokens ++ new ∧ (∀ t ∈ new, D t) ∧ (silent = true → new = []) :=
     fun x hx => ⟨[], by simp [hx], by simp, fun _ => rfl⟩
   unfold ruleImage at hr
   rw [List.getElem?_eq_getElem hin] at hr
@@ -227,7 +243,7 @@ theorem iadds4_image (ext : IExt) (lx : LExt) (mn : Int) (inner : List IRule) (h
       obtain ⟨r, s1⟩ := v
       rw [hp] at hr
       simp only at hr
-      have ht1 := parseLinkLabel_tok (Deep (UTok ext lx)) inner hok had mn s (s.pos + 1) false r s1 hc.2 hk hp
+      have ht1 := parseLinkLabel_tok D inner hok had mn s (s.pos + 1) false r s1 hc.2 hk hp
       obtain ⟨r', s1', hp', hfr1, hpos1, hr1⟩ := parseLinkLabel4 inner hok mn s (s.pos + 1) false hc.2 hk
       rw [hp] at hp'; simp only [Except.ok.injEq, Prod.mk.injEq] at hp'; obtain ⟨rfl, rfl⟩ := hp'
       split at hr
@@ -260,7 +276,7 @@ theorem iadds4_image (ext : IExt) (lx : LExt) (mn : Int) (inner : List IRule) (h
                 simp only [Option.some.injEq, Prod.mk.injEq] at he
                 obtain ⟨_, rfl, _⟩ := he
                 exact imageInline_src ext lx _ _ _ _ _ _ hi
-            · have ht2 := linkRef_tok (Deep (UTok ext lx)) lx mn inner hok had s1 (s.pos + 2) r.toNat s.posMax (r.toNat + 1) s2 o hend1
+            · have ht2 := linkRef_tok D lx mn inner hok had s1 (s.pos + 2) r.toNat s.posMax (r.toNat + 1) s2 o hend1
                 hfr1.2.2.2.2.2 hfound
               refine ⟨ht2.trans ht1, ?_⟩
               intro pos h t l he
@@ -282,7 +298,7 @@ theorem iadds4_image (ext : IExt) (lx : LExt) (mn : Int) (inner : List IRule) (h
                 rw [he] at hr
                 simp only [Except.ok.injEq, Prod.mk.injEq] at hr
                 obtain ⟨_, rfl⟩ := hr
-                obtain ⟨new, hn1, hn2⟩ := imageEmit_adds ext lx parse hparse s2 (s.pos + 2) r.toNat hrf title label (hlsrc pos hrf title label rfl) s3 he
+                obtain ⟨new, hn1, hn2⟩ := imageEmit_adds ext lx hI parse hparse s2 (s.pos + 2) r.toNat hrf title label (hlsrc pos hrf title label rfl) s3 he
                 exact ⟨new, by show s3.tokens = _; rw [hn1, ht2], hn2, by simp⟩
 
 
@@ -320,14 +336,27 @@ theorem parse_toks4 {N : Tok → Prop} (strike emphasis : Bool) (hN : TokClosed 
     · exact fragmentsJoin_toks hN _ 0 _ (Nat.le_refl _) h3
     · exact h3
 
-theorem imgChain_adds4 (cls : QCls) (ext : IExt) (lx : LExt)
-    (text newline escape backticks strike emphasis link image autolink htmlInline entity fragJoin : Bool) (mn : Int) :
+/-- what the leaf rules of a configuration need of a token predicate: the tokens each *enabled* rule pushes satisfy it -/
+structure LeafN (ext : IExt) (D : Tok → Prop) (newline escape backticks autolink htmlInline entity : Bool) : Prop where
+  hardbreak : (newline || escape) = true → ∀ lvl, D (mkInlineTok "hardbreak" "br" 0 lvl "" "" "")
+  softbreak : newline = true → ∀ lvl, D (mkInlineTok "softbreak" "br" 0 lvl "" "" "")
+  escaped : escape = true → ∀ lvl c mk, D (mkInlineTok "text_special" "" 0 lvl c mk "escape")
+  code : backticks = true → ∀ lvl c mk, D (mkInlineTok "code_inline" "code" 0 lvl c mk "")
+  autoOpen : autolink = true → ∀ lvl u, validateLink (ext.normLink u) = true →
+    D ((mkInlineTok "link_open" "a" 1 lvl "" "autolink" "auto").setAttrs' [("href", .s (String.ofList (ext.normLink u)))])
+  autoClose : autolink = true → ∀ lvl, D (mkInlineTok "link_close" "a" (-1) lvl "" "autolink" "auto")
+  html : htmlInline = true → ext.html = true → ∀ lvl c, D (mkInlineTok "html_inline" "" 0 lvl c "" "")
+  entity : entity = true → ∀ lvl c mk, D (mkInlineTok "text_special" "" 0 lvl c mk "entity")
+
+/-- the generic engine: every rule of every chain appends only tokens satisfying `D` (and none in silent mode), for any predicate the
+    enabled rules' own tokens satisfy and that the nested parses hand on -/
+theorem imgChain_addsD (cls : QCls) (ext : IExt) (lx : LExt) {D : Tok → Prop}
+    (text newline escape backticks strike emphasis link image autolink htmlInline entity fragJoin : Bool) (mn : Int)
+    (hL : LinkN ext lx D) (hI : ImageN ext lx D) (hF : LeafN ext D newline escape backticks autolink htmlInline entity)
+    (hC : TokClosed D (emphTypes strike emphasis)) :
     ∀ d : Nat, ∀ r ∈ imgChain cls ext lx text newline escape backticks strike emphasis link image autolink htmlInline entity fragJoin mn d,
-      IAdds4 (Deep (UTok ext lx)) r := by
-  have hL := deepU_linkN ext lx
+      IAdds4 D r := by
   have hT := hL.text
-  have o : ∀ (ty tag : String) (n lvl : Int) (c m i : String), ty ≠ "link_open" → ty ≠ "image" → Deep (UTok ext lx) (mkInlineTok ty tag n lvl c m i) :=
-    fun ty tag n lvl c m i h1 h2 => hL.other _ rfl (by simpa [mkInlineTok, Tok.type] using h1) (by simpa [mkInlineTok, Tok.type] using h2)
   intro d
   induction d with
   | zero => intro r hr; simp [imgChain] at hr
@@ -340,16 +369,16 @@ theorem imgChain_adds4 (cls : QCls) (ext : IExt) (lx : LExt)
       · simp at hr; subst hr; exact iadds4_of _ _ adds_text silentTok_text
       · cases hr
     · split at hr
-      · simp at hr; subst hr
-        exact iadds4_of _ _ (adds_newline hT (fun _ => o _ _ _ _ _ _ _ (by decide) (by decide)) (fun _ => o _ _ _ _ _ _ _ (by decide) (by decide))) silentTok_newline
+      · rename_i hn; simp at hr; subst hr
+        exact iadds4_of _ _ (adds_newline hT (hF.hardbreak (by simp [hn])) (hF.softbreak hn)) silentTok_newline
       · cases hr
     · split at hr
-      · simp at hr; subst hr
-        exact iadds4_of _ _ (adds_escape hT (fun _ => o _ _ _ _ _ _ _ (by decide) (by decide)) (fun _ _ _ => o _ _ _ _ _ _ _ (by decide) (by decide))) silentTok_escape
+      · rename_i he; simp at hr; subst hr
+        exact iadds4_of _ _ (adds_escape hT (hF.hardbreak (by simp [he])) (hF.escaped he)) silentTok_escape
       · cases hr
     · split at hr
-      · simp at hr; subst hr
-        exact iadds4_of _ _ (adds_backticks hT (fun _ _ _ => o _ _ _ _ _ _ _ (by decide) (by decide))) silentTok_backticks
+      · rename_i hb; simp at hr; subst hr
+        exact iadds4_of _ _ (adds_backticks hT (hF.code hb)) silentTok_backticks
       · cases hr
     · split at hr
       · simp at hr; subst hr; exact iadds4_of _ _ (adds_strike hT cls) (silentTok_strike cls)
@@ -363,24 +392,46 @@ theorem imgChain_adds4 (cls : QCls) (ext : IExt) (lx : LExt)
       · cases hr
     · split at hr
       · simp at hr; subst hr
-        refine iadds4_image ext lx mn _ hok ih _ ?_
+        refine iadds4_image ext lx hI mn _ hok ih _ ?_
         intro c ts hp
-        exact parse_toks4 strike emphasis (deep_closed (utok_closed ext lx strike emphasis)) _ hok ih fragJoin mn c ts hp
+        exact parse_toks4 strike emphasis hC _ hok ih fragJoin mn c ts hp
       · cases hr
     · split at hr
-      · simp at hr; subst hr
-        refine iadds4_of _ _ (adds_autolink hT ext ?_ (fun _ => o _ _ _ _ _ _ _ (by decide) (by decide))) (silentTok_autolink ext)
-        intro lvl u hv
-        exact hL.linkOpen _ (ext.normLink u) rfl rfl rfl (.inr (.inl ⟨u, rfl, hv⟩))
+      · rename_i ha; simp at hr; subst hr
+        exact iadds4_of _ _ (adds_autolink hT ext (hF.autoOpen ha) (hF.autoClose ha)) (silentTok_autolink ext)
       · cases hr
     · split at hr
-      · simp at hr; subst hr
-        exact iadds4_of _ _ (adds_htmlInline hT ext (fun _ _ _ => o _ _ _ _ _ _ _ (by decide) (by decide))) (silentTok_htmlInline ext)
+      · rename_i hh; simp at hr; subst hr
+        exact iadds4_of _ _ (adds_htmlInline hT ext (hF.html hh)) (silentTok_htmlInline ext)
       · cases hr
     · split at hr
-      · simp at hr; subst hr
-        exact iadds4_of _ _ (adds_entity hT ext (fun _ _ _ => o _ _ _ _ _ _ _ (by decide) (by decide))) (silentTok_entity ext)
+      · rename_i hy; simp at hr; subst hr
+        exact iadds4_of _ _ (adds_entity hT ext (hF.entity hy)) (silentTok_entity ext)
       · cases hr
+
+/-- the tokens of a parse all satisfy such a predicate -/
+theorem imgParse_toksD (cls : QCls) (ext : IExt) (lx : LExt) {D : Tok → Prop}
+    (text newline escape backticks strike emphasis link image autolink htmlInline entity fragJoin : Bool) (mn : Int)
+    (hL : LinkN ext lx D) (hI : ImageN ext lx D) (hF : LeafN ext D newline escape backticks autolink htmlInline entity)
+    (hC : TokClosed D (emphTypes strike emphasis)) (d : Nat) (src : List Char) (ts : List Tok)
+    (h : inlineParse (imgChain cls ext lx text newline escape backticks strike emphasis link image autolink htmlInline entity fragJoin mn d)
+      (imgPost strike emphasis) fragJoin mn src = .ok ts) : ∀ t ∈ ts, D t :=
+  parse_toks4 strike emphasis hC _
+    (imgChain_ok4 cls ext lx text newline escape backticks strike emphasis link image autolink htmlInline entity fragJoin mn d)
+    (imgChain_addsD cls ext lx text newline escape backticks strike emphasis link image autolink htmlInline entity fragJoin mn hL hI hF hC d)
+    fragJoin mn src ts h
+
+theorem deepU_leafN (ext : IExt) (lx : LExt) (newline escape backticks autolink htmlInline entity : Bool) :
+    LeafN ext (Deep (UTok ext lx)) newline escape backticks autolink htmlInline entity := by
+  have hL := deepU_linkN ext lx
+  have o : ∀ (ty tag : String) (n lvl : Int) (c m i : String), ty ≠ "link_open" → ty ≠ "image" → Deep (UTok ext lx) (mkInlineTok ty tag n lvl c m i) :=
+    fun ty tag n lvl c m i h1 h2 => deep_flat _ rfl (utok_other ext lx _ (by simpa [mkInlineTok, Tok.type] using h1) (by simpa [mkInlineTok, Tok.type] using h2))
+  refine ⟨fun _ _ => o _ _ _ _ _ _ _ (by decide) (by decide), fun _ _ => o _ _ _ _ _ _ _ (by decide) (by decide),
+    fun _ _ _ _ => o _ _ _ _ _ _ _ (by decide) (by decide), fun _ _ _ _ => o _ _ _ _ _ _ _ (by decide) (by decide), ?_,
+    fun _ _ => o _ _ _ _ _ _ _ (by decide) (by decide), fun _ _ _ _ => o _ _ _ _ _ _ _ (by decide) (by decide),
+    fun _ _ _ _ => o _ _ _ _ _ _ _ (by decide) (by decide)⟩
+  intro _ lvl u hv
+  exact hL.linkOpen _ (ext.normLink u) rfl rfl rfl (.inr (.inl ⟨u, rfl, hv⟩))
 
 /-- every `link_open` and every `image`, at every depth of the inline parse, carries a destination that arose legitimately -/
 theorem image_sources (cls : QCls) (ext : IExt) (lx : LExt)
@@ -388,9 +439,9 @@ theorem image_sources (cls : QCls) (ext : IExt) (lx : LExt)
     (ts : List Tok)
     (h : inlineParse (imgChain cls ext lx text newline escape backticks strike emphasis link image autolink htmlInline entity fragJoin mn d)
       (imgPost strike emphasis) fragJoin mn src = .ok ts) : ∀ t ∈ descList ts, UTok ext lx t :=
-  deep_list ts (parse_toks4 strike emphasis (deep_closed (utok_closed ext lx strike emphasis)) _
-    (imgChain_ok4 cls ext lx text newline escape backticks strike emphasis link image autolink htmlInline entity fragJoin mn d)
-    (imgChain_adds4 cls ext lx text newline escape backticks strike emphasis link image autolink htmlInline entity fragJoin mn d) fragJoin mn src ts h)
+  deep_list ts (imgParse_toksD cls ext lx text newline escape backticks strike emphasis link image autolink htmlInline entity fragJoin mn
+    (deepU_linkN ext lx) (deepU_imageN ext lx) (deepU_leafN ext lx newline escape backticks autolink htmlInline entity)
+    (deep_closed (utok_closed ext lx strike emphasis)) d src ts h)
 
 /-- a destination that is empty or acceptable to a browser -/
 def DestOK (dest : List Char) : Prop :=
